@@ -334,6 +334,32 @@ Definition spec_step (acc : list entry) (o : op) : list entry :=
 Definition spec_from (acc : list entry) (ops : list op) : list entry := fold_left spec_step ops acc.
 Definition spec (ops : list op) : list entry := spec_from [] ops.
 
+(* ---------- results that are consumed LATER than they were asked for ---------- *)
+(* In Python the read paths hand back lazy objects: read_all_values_from_file returns the _read_all_values generator
+   over the bytes it has just read, read_all_values() is a generator over the mapping.  A caller may keep several such
+   results alive and consume them later, element by element and interleaved (merging or comparing the files of two
+   processes), after reading OTHER files, after reading the SAME file again once more was written, after growth, after
+   the writer closed its handle.
+   In the model a result is a VALUE, computed from the bytes of ITS file at the moment of ITS call:
+   read_all_from_file pg b : res (list entry) has no other input than b.  That is what a held result of the file reader
+   denotes, and consuming it - now or later, all at once or in pieces - can only unfold that value: `consume` below has
+   the later worlds (every file as it is at the moment of consumption, the results asked for in between) as an input it
+   does not look at.  So C10_abs / C10_abs_keys, which say what read_all_from_file returns for the file of a history, say
+   it for a result held across any number of later calls on any files; the correspondence holds results of two and
+   more files (and of one file at several moments) alive at the same time and consumes them late and interleaved.
+   read_all_values() of a handle is a view of the live mapping in the implementation (nothing is copied): consumed while
+   its file does not change it is read_all b h of the moment of the call (compared with the model); consumed across
+   later writes, each element is the key's pair at some moment between the call and the element's delivery (both
+   readings of "most recently written" - the direct oracle checks this envelope). *)
+Definition held := res (list entry).
+Definition hold_file (pg : N) (f : fstate) : held :=
+  match f with Some b => read_all_from_file pg b | None => Err OSError end.
+Definition hold_handle (f : fstate) (h : handle) : held :=
+  match f with Some b => read_all b h | None => Err OSError end.
+(* the first n elements of a held result, consumed when the files are `later` *)
+Definition consume (r : held) (n : nat) (later : list fstate) : res (list entry) :=
+  do l <- r; Ok (firstn n l).
+
 (* the writer's own operations of a history with forked children *)
 Definition own_ops (ws : list wop) : list op :=
   flat_map (fun w => match w with Own o => [o] | _ => [] end) ws.
